@@ -459,6 +459,86 @@ func PoolPut(p *sync.Pool, x any, site int32) {
 	park(KSyncPost, site, 0, 0)
 }
 
+// OnceFunc / OnceValue / OnceValues mirror the sync package's helpers but enter
+// the Once through the scheduler (see OnceDo): the originals hide a sync.Once
+// whose internal mutex a second caller would block on where synctest cannot
+// see it.
+func OnceFunc(f func()) func() {
+	var o sync.Once
+	return func() { OnceDo(&o, f, 0) }
+}
+
+func OnceValue[T any](f func() T) func() T {
+	var o sync.Once
+	var v T
+	return func() T {
+		OnceDo(&o, func() { v = f() }, 0)
+		return v
+	}
+}
+
+func OnceValues[A, B any](f func() (A, B)) func() (A, B) {
+	var o sync.Once
+	var a A
+	var b B
+	return func() (A, B) {
+		OnceDo(&o, func() { a, b = f() }, 0)
+		return a, b
+	}
+}
+
+// LockerLock / LockerUnlock: Lock/Unlock through a sync.Locker interface value.
+func LockerLock(l sync.Locker, site int32) {
+	if cur == nil {
+		l.Lock()
+		return
+	}
+	switch m := l.(type) {
+	case *sync.Mutex:
+		Lock(m, site)
+	case *sync.RWMutex:
+		WLock(m, site)
+	default:
+		if reflect.TypeOf(l).String() == "*sync.rlocker" {
+			// type rlocker RWMutex: same memory
+			RLock((*sync.RWMutex)(reflect.ValueOf(l).UnsafePointer()), site)
+			return
+		}
+		park(KSyncPre, site, 0, 0)
+		l.Lock()
+		park(KSyncPost, site, 0, 0)
+	}
+}
+
+func LockerUnlock(l sync.Locker, site int32) {
+	if cur == nil {
+		l.Unlock()
+		return
+	}
+	switch m := l.(type) {
+	case *sync.Mutex:
+		Unlock(m, site)
+	case *sync.RWMutex:
+		WUnlock(m, site)
+	default:
+		if reflect.TypeOf(l).String() == "*sync.rlocker" {
+			RUnlock((*sync.RWMutex)(reflect.ValueOf(l).UnsafePointer()), site)
+			return
+		}
+		l.Unlock()
+		park(KSyncPost, site, 0, 0)
+	}
+}
+
+// Gosched is runtime.Gosched as a scheduling point.
+func Gosched(site int32) {
+	if cur == nil {
+		runtime.Gosched()
+		return
+	}
+	park(KSyncPost, site, 0, 0)
+}
+
 // PreSync / PostSync bracket sync operations that are not modelled in detail
 // (WaitGroup, Cond signalling, ...): they only add scheduling points so that
 // the goroutines involved park before running library code.
